@@ -263,6 +263,112 @@ def ok : Monitor := fun cfg e t r =>
 
 end C11H
 
+/-! ### C04S — `RetryExhaustedError.stop_reason` / `last_class` are the ones the hooks were told -/
+
+namespace C04S
+
+/--
+C04: "… it raises RetryExhaustedError whose stop_reason, attempts, last_class, … describe that final attempt".
+`Mon.C04.fieldsOk` pins `stop_reason` only as far as "SCHEDULED iff deferred".  Which rule stopped the final
+attempt is visible in the log whenever a metric / log hook is configured: it is the `stop_reason` tag of
+the terminal event (the event is emitted by the rule that stops the run).  This monitor says that the error
+`call()` raises carries THAT stop reason and class — `Mon.C14.lastOk` on each configured sink, restricted to
+results that are a library-made `RetryExhaustedError`.  Guards: `Mon.C14.guard` (normal end, no attempt hook /
+abort predicate raised) and not rejected by the breaker.  `Props/C04Stop.lean` derives it from C14's
+`terminal_tags`.
+-/
+def ok : Monitor := fun cfg e t r =>
+  match r with
+  | .raised (.libExhausted _) =>
+    if C14.guard cfg e t r && !Mon.rejected t then
+      (!cfg.metric || C14.lastOk true (C14.run cfg t).ms r)
+      && (!cfg.log || C14.lastOk true (C14.run cfg t).ls r)
+    else true
+  | _ => true
+
+end C04S
+
+/-! ### C09 — exactly one record in EVERY run (no environment guard); proofs in `Props/C09Once.lean` -/
+
+namespace C09
+
+/-- in EVERY run (no environment guard): no record before / without admission, and an admitted call
+    makes exactly one.  NOT true of every run of the model: see `Props.C09Once.once_refuted`. -/
+def once : Monitor := fun cfg e t _ =>
+  if e.isPolicy && cfg.breaker.isSome then
+    let s := run t
+    s.preRecords == 0
+    && (match s.admitted with
+        | some true => s.records.length == 1
+        | _ => s.records.isEmpty)
+  else true
+
+/-- the exceptions that `call()`'s `except` ladder answers with an unconditional `record_cancel`:
+    `except (KeyboardInterrupt, SystemExit)`, and `except asyncio.CancelledError` in `AsyncPolicy` -/
+def cancelArm (cfg : Cfg) (e : Exn) : Bool := (cfg.isAsync && e == .cancelled) || e.isKiSe
+
+/-- has a `record_success` been seen; did a metric / log hook AFTER it raise a `cancelArm` kind -/
+structure DSt where
+  seen : Bool := false
+  bad : Bool := false
+
+def dstep (cfg : Cfg) (s : DSt) (x : Req × Ans) : DSt :=
+  match x.1, x.2 with
+  | .breakerSuccess, _ => { s with seen := true }
+  | .metric .., .raise e _ => { s with bad := s.bad || (s.seen && cancelArm cfg e) }
+  | .log .., .raise e _ => { s with bad := s.bad || (s.seen && cancelArm cfg e) }
+  | _, _ => s
+
+/-- The one situation in which a call makes a second record: in `call()` (not `execute()`), after the
+    `record_success`, the metric / log hook (reporting the breaker's `circuit_closed` event) raised
+    KeyboardInterrupt / SystemExit — or CancelledError, `AsyncPolicy` — which `call()`'s own `except`
+    arm for that kind answers with `record_cancel`. -/
+def successEventFault (cfg : Cfg) (e : Entry) (t : Trace) : Bool :=
+  !e.isExecute && (t.foldl (dstep cfg) {}).bad
+
+/-- `once` under the narrowest guard: unless `successEventFault` -/
+def onceGuarded : Monitor := fun cfg e t r =>
+  if successEventFault cfg e t then true else once cfg e t r
+
+/-- in EVERY run (no guard at all): no record before / without admission; an admitted call makes
+    exactly one record — or exactly `[record_success, record_cancel]`, and that precisely when
+    `successEventFault` -/
+def onceExact : Monitor := fun cfg e t _ =>
+  if e.isPolicy && cfg.breaker.isSome then
+    let s := run t
+    s.preRecords == 0
+    && (match s.admitted with
+        | some true =>
+          if successEventFault cfg e t then s.records == [.breakerSuccess, .breakerCancel]
+          else s.records.length == 1
+        | _ => s.records.isEmpty)
+  else true
+
+end C09
+
+/-! ### C16 — what may cut a due sleep short; proofs in `Props/C16Cut.lean` -/
+
+namespace C16
+
+/-- errors the log shows being raised by a callback whose errors PROPAGATE (i.e. not an `Exception`
+    raised by a metric / log / before_sleep hook, which the library swallows) -/
+def props (t : Trace) : List Exn := t.filterMap raisedOf
+
+/-- the run ended with an error that can legitimately end it while a granted retry's sleep is due: one
+    that a callback raised and that propagates, or the `AbortRetryError` the library makes when
+    `abort_if` answers true, or the model's `stuck`; or it ended as ABORTED -/
+def cutBy (t : Trace) : Res → Bool
+  | .raised e => (props t).contains e || e == .libAbort || e == .stuck
+  | .outcome o _ => o.stop == some .aborted
+  | .ret _ => false
+
+/-- a run in which a granted retry's sleep is still due at the end (and no stop decision was taken) was
+    cut short by an error that propagates, by `abort_if`, or ended as ABORTED -/
+def cutOk : Monitor := fun cfg e t r =>
+  !hasLoop cfg e || !((run cfg t).pending && (run cfg t).stopped.isNone) || cutBy t r
+
+end C16
+
 end Mon
 
 namespace MonitorsNR
@@ -272,7 +378,8 @@ open Mon
 /-- registry in the shape of `Monitors.all`: (property id, monitor name, monitor) -/
 def all : List (String × String × Monitor) :=
   [ ("C04", "no_retry_call", C04NR.ok), ("C11", "no_retry_execute", C11NR.ok),
-    ("C11", "attempts_eq_invocations", C11H.ok) ]
+    ("C11", "attempts_eq_invocations", C11H.ok), ("C04", "exhausted_stop_reason", C04S.ok),
+    ("C09", "once_exact", C09.onceExact), ("C16", "cut_by_propagating_error", C16.cutOk) ]
 
 end MonitorsNR
 end Redress
